@@ -833,12 +833,20 @@ class ConstantMul(Composite):
 
     def make(self, rng, kind, n, m, batch, depth, dtype):
         neg = kind in ("rect", "square", "sym") and rng.random() < 0.5
-        s = _base(self.name, kind, n, m, batch, dtype, rng, neg=neg, cbatch=rng.choice(["full", "scalar"]))
+        cb = rng.choice(["full", "scalar", "full", "scalar", "ones", "trailing"]) if batch else rng.choice(["full", "scalar"])
+        s = _base(self.name, kind, n, m, batch, dtype, rng, neg=neg, cbatch=cb)
         s["children"] = [_gen(rng, kind, n, m, batch, depth - 1, dtype)]
         return s
 
     def build(self, spec, g, kids):
-        batch = spec["batch"] if spec["opt"]["cbatch"] == "full" else []
+        cb = spec["opt"]["cbatch"]
+        batch = list(spec["batch"])
+        if cb == "scalar":
+            batch = []
+        elif cb == "ones":  # broadcasts against the operator's batch: first dimension kept, the others 1 (all 1 for a 1-d batch)
+            batch = [batch[0]] + [1] * (len(batch) - 1) if len(batch) > 1 else [1]
+        elif cb == "trailing":
+            batch = batch[1:]
         c = 0.5 + _rand(g, *batch)
         if spec["opt"]["neg"]:
             c = -c
